@@ -24,6 +24,19 @@ type Sliceable interface {
 	Slice(start, end int) interface{}
 }
 
+// Rotatable represents a metadata which follows a change of origin of a
+// circular sequence of the given length by n positions.
+type Rotatable interface {
+	Rotate(n, length int) interface{}
+}
+
+func tryRotate(info interface{}, n, length int) interface{} {
+	if v, ok := info.(Rotatable); ok {
+		return v.Rotate(n, length)
+	}
+	return info
+}
+
 func tryShift(info interface{}, i, n int) interface{} {
 	if v, ok := info.(Shiftable); ok {
 		return v.Shift(i, n)
@@ -353,6 +366,8 @@ func Rotate(seq Sequence, n int) Sequence {
 		n += Len(seq)
 	}
 	n %= Len(seq)
+
+	seq = WithInfo(seq, tryRotate(seq.Info(), n, Len(seq)))
 
 	var ff FeatureSlice
 	for _, f := range seq.Features() {
